@@ -24,7 +24,8 @@ from harness.common import HarnessError
 from harness.gen import a11_c18 as G
 
 DRIVERS = ["drv_c18"]
-RULE = ("generated Modelica programs (1-D/2-D/3-D arrays, arrays of components holding arrays, two levels of "
+RULE = ("generated Modelica programs (1-D/2-D/3-D arrays incl. column, row and 1x1 matrices, DM-valued attributes from "
+        "builtin array constructors, arrays of components holding arrays, two levels of "
         "component nesting, derivatives of arrays, array-valued/each/parameter-dependent attributes (incl. non-scalar "
         "expressions of 1-D/2-D array parameters), Integer and "
         "Boolean arrays, outputs, delays, for-loops, slices); a case is one program compiled with and without "
@@ -72,6 +73,10 @@ def expected_attr(spec, idx, point):
         return v
     if f == "innerfill":
         return spec["v"]
+    if f == "dm":
+        own = list(idx)[spec["skip"]:]
+        v = spec["v"]
+        return v[own[0]][own[1]] if isinstance(v[0], list) else v[own[0]]
     if f == "pscalar":
         return spec["k"] * point[spec["p"]][0]
     if f == "pvec":
@@ -447,6 +452,12 @@ def attr_json(spec):
         return {"kind": "list", "v": _ints(spec["v"])}
     if f == "innerfill":
         return {"kind": "dm", "shape": spec["dims"] + [1] * (2 - len(spec["dims"]))}
+    if f == "dm":
+        v = spec["v"]
+        if isinstance(v[0], list):
+            r, c = len(v), len(v[0])
+            return {"kind": "dm", "shape": [r, c], "data": [v[i][j] for j in range(c) for i in range(r)]}
+        return {"kind": "dm", "shape": [len(v), 1], "data": list(v)}
     if f == "pref" and spec["el"] is None:
         return {"kind": "mx", "shape": list(mx_shape(spec["dims"]))}
     if f in ("pvec", "pref"):
@@ -498,6 +509,8 @@ def model_attr_check(ctx, case, drv, impl_attr, raised=None, point=None):
                     op = spec.get("op", "ref")
                     want.append(spec["k"] * a0 if op == "smul" else a0 + point[spec["p2"]][pos] if op == "add"
                                 else a0 * point[spec["p2"]][pos] if op == "emul" else a0)
+            elif "data" in aj:
+                want = [aj["data"][p_] for p_ in ans["positions"]]
             else:
                 want = [spec["v"] for _ in ans["positions"]]
             if len(want) != len(got) or any(not same_number(x, y) for x, y in zip(want, got)):
